@@ -432,6 +432,11 @@ pub fn subscribe_request_ev(min_s: u16, max_s: u16, attr_paths: &[Path], event_p
 
 /// (path, optional data version condition, value TLV written with the given writer)
 pub fn write_request(items: &[(Path, Option<u32>, u32)], timed: bool) -> Vec<u8> {
+    write_request_chunk(items, timed, false)
+}
+
+/// One message of a (possibly chunked) write: `more` is the MoreChunkedMessages flag.
+pub fn write_request_chunk(items: &[(Path, Option<u32>, u32)], timed: bool, more: bool) -> Vec<u8> {
     let mut buf = vec![0u8; 2048];
     let mut tw = WriteBuf::new(&mut buf);
     tw.start_struct(&TLVTag::Anonymous).unwrap();
@@ -448,7 +453,7 @@ pub fn write_request(items: &[(Path, Option<u32>, u32)], timed: bool) -> Vec<u8>
         tw.end_container().unwrap();
     }
     tw.end_container().unwrap();
-    tw.bool(&TLVTag::Context(3), false).unwrap();
+    tw.bool(&TLVTag::Context(3), more).unwrap();
     tw.u8(&TLVTag::Context(0xFF), 12).unwrap();
     tw.end_container().unwrap();
     tw.as_slice().to_vec()
@@ -773,6 +778,56 @@ pub async fn do_request(ex: &mut Exchange<'_>, timed_ms: Option<u16>, delay_afte
         ans.error = Some(format!("{:?}", e.code()));
     }
     ans
+}
+
+/// A chunked write on one exchange: an optional TimedRequest, then every chunk (sent after its delay)
+/// with the answer to each handed to `each`; stops at the first answer that is not a WriteResponse.
+pub async fn do_write_chunks(ex: &mut Exchange<'_>, timed_ms: Option<u16>, chunks: &[(u64, Vec<u8>)], mut each: impl FnMut(Answer)) -> Option<String> {
+    let r: Result<(), Error> = async {
+        if let Some(t) = timed_ms {
+            ex.send(MessageMeta::new(PROTO_IM, OP_TIMED_REQ, true), &timed_request(t)).await?;
+            let (_, op, payload) = recv_msg(ex).await?;
+            if op != OP_STATUS || status_response_code(&payload) != 0 {
+                let mut ans = Answer::default();
+                ans.messages.push((op, payload.clone()));
+                ans.status_response = Some(status_response_code(&payload));
+                each(ans);
+                return Ok(());
+            }
+        }
+        for (delay, req) in chunks {
+            if *delay > 0 {
+                embassy_time::Timer::after(embassy_time::Duration::from_millis(*delay)).await;
+            }
+            ex.send(MessageMeta::new(PROTO_IM, OP_WRITE_REQ, true), req).await?;
+            let (_, op, payload) = recv_msg(ex).await?;
+            let mut ans = Answer::default();
+            ans.messages.push((op, payload.clone()));
+            let mut stop = false;
+            match op {
+                OP_WRITE_RESP => match decode_write_response(&payload) {
+                    Ok(items) => ans.items = items,
+                    Err(e) => ans.error = Some(e),
+                },
+                OP_STATUS => {
+                    ans.status_response = Some(status_response_code(&payload));
+                    stop = true;
+                }
+                other => {
+                    ans.error = Some(format!("unexpected opcode {}", other));
+                    stop = true;
+                }
+            }
+            each(ans);
+            if stop {
+                break;
+            }
+        }
+        ex.acknowledge().await?;
+        Ok(())
+    }
+    .await;
+    r.err().map(|e| format!("{:?}", e.code()))
 }
 
 /// SubscribeRequest; collects the priming chunks and the SubscribeResponse.
